@@ -1,6 +1,7 @@
 (* C13 — Cuckoo filter deletion and length accounting. Statements only. *)
 From GX.Model Require Import Base Murmur Cuckoo.
-From GX.Proofs Require Import ListLemmas CuckooProofs CuckooInv.
+From GX.Model Require Import Redis RedisCMS RedisCuckoo.
+From GX.Proofs Require Import ListLemmas CuckooProofs CuckooInv RedisCuckooInv.
 From Coq Require Import ZArith.
 Open Scope N_scope.
 
@@ -75,6 +76,46 @@ Example C13_hypotheses_satisfiable :
   q_len (fst (crun murmur64 (ck_new 4 1 2 3) c13_ops)) = 3.
 Proof. vm_compute. repeat split; congruence. Qed.
 
+(* ---------- Redis-backed variant, on the Redis model itself ----------
+   Bucket i is the Redis list cuckoo_<key>_bucket_<i> with its counter <bucket>_len; the filter's
+   Length is the "length" field of the metadata hash. The metadata key is different from the
+   bucket and counter keys (16 random letters vs. the longer derived names). RI s: every bucket's
+   counter equals the number of non-empty entries of its list, no list is longer than bucketSize,
+   and the length field equals the total number of stored entries. *)
+Section Redis.
+Variable key meta : bytes.
+Variable size bsize fpl retries : N.
+Variable h64 : bytes -> N.
+Hypothesis meta_not_bucket : forall i, meta <> bucket_key key i.
+Hypothesis meta_not_len : forall i, meta <> len_key (bucket_key key i).
+Hypothesis bsize_pos : 1 <= bsize.
+Hypothesis bsize_small : bsize < 2 ^ 62.
+Hypothesis size_pos : 0 < size.
+
+(* RI is invariant along every history of Insert / Remove (any flags, draws in Float64's range)
+   on elements with a non-empty fingerprint, and the number of stored entries moves by
+   (inserts that returned) - (removes that returned true) *)
+Theorem C13_redis_invariant : forall ops s,
+  RI key meta size bsize s ->
+  Forall (fun o => fp_ok h64 fpl (rop_elem o) = true /\ Forall (fun k => k < 2 ^ 53) (rop_draws o)) ops ->
+  RI key meta size bsize (fst (rrun_ops key meta size bsize fpl retries h64 s ops)) /\
+  (Z.of_nat (tot key size (fst (rrun_ops key meta size bsize fpl retries h64 s ops))) =
+   Z.of_nat (tot key size s) + snd (rrun_ops key meta size bsize fpl retries h64 s ops))%Z.
+Proof. exact (rrun_RI key meta size bsize meta_not_bucket meta_not_len bsize_pos bsize_small fpl retries h64 size_pos). Qed.
+
+(* Length() is the number of stored entries *)
+Theorem C13_redis_length : forall s, size * bsize < two64 -> RI key meta size bsize s ->
+  rck_length s (hdl key meta size bsize fpl retries) = N.of_nat (tot key size s).
+Proof. exact (length_is_tot key meta size bsize meta_not_bucket meta_not_len bsize_pos bsize_small fpl retries h64). Qed.
+
+(* a new filter whose keys are fresh satisfies RI with no entries *)
+Theorem C13_redis_new : forall s, meta <> key ->
+  (forall i, i < size -> sget s (bucket_key key i) = None /\ sget s (len_key (bucket_key key i)) = None) ->
+  RI key meta size bsize (snd (rck_new s size bsize fpl retries key meta)) /\
+  tot key size (snd (rck_new s size bsize fpl retries key meta)) = 0%nat.
+Proof. exact (rck_new_RI key meta size bsize meta_not_bucket meta_not_len bsize_pos bsize_small fpl retries h64 size_pos). Qed.
+End Redis.
+
 (* REFUTED for elements with an empty fingerprint: Length counts an element that is not stored *)
 Theorem C13_refuted_empty_fingerprint : exists f,
   ck_insert murmur64 (ck_new 4 1 25 3) [255; 254; 24] false true [] = InsOk f /\
@@ -87,3 +128,6 @@ Print Assumptions C13_refuted_empty_fingerprint.
 Print Assumptions C13_length_accounting.
 Print Assumptions C13_invariant_inductive.
 Print Assumptions C13_remove_takes_one_entry.
+Print Assumptions C13_redis_invariant.
+Print Assumptions C13_redis_length.
+Print Assumptions C13_redis_new.
